@@ -22,7 +22,9 @@ MANIFEST = dict(
 )
 
 HASH_TY = re.compile(r"^std::collections::hash::(map::HashMap|set::HashSet)\b|^hashbrown::")
-ITER_METHODS = {"iter", "iter_mut", "keys", "values", "values_mut", "into_iter", "drain", "into_keys", "into_values"}
+ITER_METHODS = {"iter", "iter_mut", "keys", "values", "values_mut", "into_iter", "drain", "into_keys", "into_values",
+                # the set-algebra adaptors of HashSet are lazy iterators in the receiver's hash order
+                "difference", "symmetric_difference", "intersection", "union", "extract_if", "drain_filter"}
 INSENSITIVE_TERMINALS = {"min", "max", "sum", "count", "all", "any", "len", "is_empty", "product"}
 ORDERED_TARGETS = ("HashMap<", "HashSet<", "BTreeMap<", "BTreeSet<")
 ANALYSED_CRATES = ["sylt_compiler", "sylt_parser", "sylt_common", "sylt_tokenizer", "sylt"]
@@ -32,6 +34,15 @@ AMBIENT_PREFIXES = ("std::time::", "std::env::", "std::thread::", "std::process:
 
 def is_hash_ty(t):
     return bool(HASH_TY.match(strip_ty(t)))
+
+
+def yields_hash_iterator(n):
+    """any method of a hash collection whose result is one of std's hash-order iterator types (whatever it is called)"""
+    t = (n.get("ty") or "").lstrip("&").replace("mut ", "")
+    return t.startswith(("std::collections::hash::map::", "std::collections::hash::set::", "hashbrown::")) and \
+        not t.startswith(("std::collections::hash::map::HashMap", "std::collections::hash::set::HashSet",
+                          "std::collections::hash::map::Entry", "std::collections::hash::map::OccupiedEntry",
+                          "std::collections::hash::map::VacantEntry"))
 
 
 def closure_impure(c):
@@ -60,7 +71,7 @@ def run(F, rep, tier):
         # ---- HASH sources
         for n, parents in walk(body):
             k = n.get("k")
-            if k == "MethodCall" and n["m"] in ITER_METHODS and is_hash_ty(n.get("recv_ty", "")):
+            if k == "MethodCall" and is_hash_ty(n.get("recv_ty", "")) and (n["m"] in ITER_METHODS or yields_hash_iterator(n)):
                 n_src += 1
                 classify(rep, fname, n, parents)
             elif k == "ForLoop" and is_hash_ty(n.get("iter_ty", "")):
